@@ -9,20 +9,12 @@ NOT_APPLICABLE = {
     "C24": "feerate-diagram optimality / never-worse is a property of algorithm output over all graphs; no structural necessary condition short of re-proving the algorithm",
     "C25": "reference-model equivalence over operation sequences (runtime SanityCheck is its guard); not a shape-of-code fact",
     "C30": "exactness of 128-bit products/divisions and diagram comparison for all values is numeric",
-    "C34": "equivalence with an announcement-level reference model over interleavings; multi-index state machine, dynamic SanityCheck",
-    "C35": "reference-model / eviction-fairness property over operation sequences",
-    "C37": "invariant over operation sequences of a hashed bucket structure; dynamic CheckAddrman",
     "C40": "optimality/sufficiency of search algorithms over all pools (algorithmic, value-level)",
     "C41": "end-to-end numeric property (fees vs size, change) of transaction creation",
-    "C43": "crash-point / SQLite atomicity and reload equality are runtime storage properties",
     "C44": "equality with recomputation over histories (value-level)",
     "C45": "parser/printer inverse and checksum-distance properties (algorithmic)",
-    "C46": "depends on miniscript satisfier semantics over all expressions",
-    "C47": "content equality after re-encode/merge (data semantics)",
     "C49": "numeric functions vs standards (hash/cipher outputs)",
     "C50": "numeric/algebraic (curve arithmetic)",
     "C51": "algorithmic no-false-negative properties of probabilistic filters",
-    "C56": "end-to-end wallet/mempool numeric property",
-    "C60": "bit-level matching/parsing and ban-list semantics over sequences",
     "C61": "reference-model equivalence of containers/allocators",
 }
